@@ -49,8 +49,9 @@ TIMES = ["12:10:11", "12:10:12"]
 
 RULE = ("worlds of 1..6 .rtdc files with basin definitions between them: all "
         "directed graphs (self references, k-cycles, chains, diamonds) over "
-        "<= 2 files in quick and <= 3 files (plus every 4-file graph once) in "
-        "thorough, random graphs up to 6 files; run identifiers equal / "
+        "<= 2 files in quick; in thorough every graph over <= 3 files in 6 "
+        "attribute variants, every 4-file graph with <= 7 edges once and "
+        "3000 sampled denser ones; random graphs up to 6 files; run identifiers equal / "
         "prefix / unrelated / derived from date+time+setup / absent; basin "
         "kinds file, internal, http, s3, dcor and the type/format mixes "
         "remote+hdf5, internal+hdf5; locations absolute, relative to the "
@@ -1013,7 +1014,7 @@ def run_cases(scratch, cases, nproc=None, budget=None):
 # --------------------------------------------------------------------------
 def check_cases(run, cases, record=True):
     results = run_cases(run.scratch, cases,
-                        budget=2400 if run.thorough else 200)
+                        budget=1000 if run.thorough else 200)
     skipped = set(k for k, r in enumerate(results) if r[0]["status"] == 4)
     if skipped:
         run.notes.append("%d of %d cases not evaluated (time budget of the "
@@ -1090,13 +1091,19 @@ def run(run):
     if run.thorough:
         cases += graph_cases(3, run.rng, quickvars[:4] + quickvars[5:])
         pairs = [(i, j) for i in range(4) for j in range(4)]
+        dense = []
         for mask in range(1 << 16):
             edges = [p for k, p in enumerate(pairs) if mask >> k & 1]
-            if len(edges) > 9:
+            if len(edges) > 7:
+                dense.append(edges)
                 continue
             cases.append(graph_case(4, edges, (
                 run.rng.choice(["hdf5", "hdf5", "http"]),
                 run.rng.choice(["equal", "odd-one", "random"])), run.rng))
+        for edges in run.rng.sample(dense, 3000):
+            cases.append(graph_case(4, edges, (
+                run.rng.choice(["hdf5", "hdf5", "http"]),
+                run.rng.choice(["equal", "odd-one"])), run.rng))
     nrand = 6000 if run.thorough else 330
     for _ in range(nrand):
         cases.append(gen_case(run.rng))
@@ -1182,10 +1189,11 @@ def search(run, broken):
     oracle-only sweep on the real code."""
     n = 12000 if run.thorough else 3000
     cases = [gen_case(run.rng) for _ in range(n)]
-    results = run_cases(run.scratch, cases)
+    results = run_cases(run.scratch, cases,
+                        budget=900 if run.thorough else 240)
     known = run.finding_ids()
     for case, (res, _) in zip(cases, results):
-        if res["status"] == 3:
+        if res["status"] in (3, 4):
             continue
         f = oracle(case, res)
         if f is not None and f[1] not in known:
